@@ -271,6 +271,12 @@ var argAlphabets = map[string][]string{
 	"bool":    {"true", "false", "t", "T", " ", "1"},
 }
 
+// characters tried in place of each character of a valid argument
+var substChars = map[string]string{
+	"date": "-+ 09a/", "uint": "-+ 09ax._", "int": "-+ 09ax._", "fracdig": "-+ 091.", "max": "-+ 09ua",
+	"range": "-+ 09.|ae", "length": "-+ 09.|ae", "bool": "tTeE 1", "key": " \t:/a1", "unique": " \t:/a1",
+}
+
 func enumArgs(alpha []string, maxLen int, emit func(string)) {
 	var rec func(prefix string, depth int)
 	rec = func(prefix string, depth int) {
@@ -307,10 +313,15 @@ func genYArgs(r *Rng, tier string, n int, emit func(Case)) {
 				text := stmtTextWithArg(kw, a)
 				emit(mkCheckCase(text, Case{"argkind": kind, "kw": kw, "arg": a}))
 			}
-			if alpha, ok := argAlphabets[kind]; ok && kw == argKindKeywords[kind][0] {
+			// every keyword of the kind has its own call site of the argument check (and some a second check
+			// behind it): the first gets the longer sequences, the others one token less
+			if alpha, ok := argAlphabets[kind]; ok {
 				maxLen := 3
 				if tier == "thorough" {
 					maxLen = 4
+				}
+				if kw != argKindKeywords[kind][0] {
+					maxLen--
 				}
 				seen := map[string]bool{}
 				enumArgs(alpha, maxLen, func(a string) {
@@ -321,6 +332,42 @@ func genYArgs(r *Rng, tier string, n int, emit func(Case)) {
 					nameCounter = 0
 					emit(mkCheckCase(stmtTextWithArg(kw, a), Case{"argkind": kind, "kw": kw, "arg": a}))
 				})
+			}
+			// every one-character substitution (for dates also every pair) in the first, valid, probe
+			if len(probes) > 0 && len(probes[0]) > 0 && len(probes[0]) <= 12 {
+				subs := substChars[kind]
+				if subs == "" {
+					subs = "-+ 0a."
+				}
+				base := []byte(probes[0])
+				seen := map[string]bool{}
+				put := func(a string) {
+					if seen[a] || a == probes[0] {
+						return
+					}
+					seen[a] = true
+					nameCounter = 0
+					emit(mkCheckCase(stmtTextWithArg(kw, a), Case{"argkind": kind, "kw": kw, "arg": a}))
+				}
+				for i := range base {
+					for _, ch := range []byte(subs) {
+						b := append([]byte{}, base...)
+						b[i] = ch
+						put(string(b))
+						if kind == "date" && (tier == "thorough" || r.Chance(25)) {
+							for j := i + 1; j < len(base); j++ {
+								for _, ch2 := range []byte(subs) {
+									b2 := append([]byte{}, b...)
+									b2[j] = ch2
+									put(string(b2))
+								}
+							}
+						}
+					}
+					// one character dropped, one doubled
+					put(string(append(append([]byte{}, base[:i]...), base[i+1:]...)))
+					put(string(append(append(append([]byte{}, base[:i+1]...), base[i]), base[i+1:]...)))
+				}
 			}
 			// random mutations of valid probes
 			for i := 0; i < n/200+1; i++ {
